@@ -156,7 +156,10 @@ class SourceModel:
                             self.funcs[qual] = Func(qual, m.name, node.value, cls, parent)
         visit(m.tree.body, m.name, None, None)
         m.history = {}          # name -> value nodes of its successive module-level assignments (X = ...; X = f(X))
+        m.func_history = {}     # name -> the successive module-level definitions of a function name (def _ ...; def _ ...)
         for node in m.tree.body:
+            if isinstance(node, ast.FunctionDef):
+                m.func_history.setdefault(node.name, []).append(node)
             if isinstance(node, (ast.FunctionDef, ast.ClassDef)):
                 m.bindings[node.name] = node
             elif isinstance(node, ast.Assign):
@@ -164,6 +167,14 @@ class SourceModel:
                     if isinstance(t, ast.Name):
                         m.bindings[t.id] = node.value
                         m.history.setdefault(t.id, []).append(node.value)
+                    elif isinstance(t, (ast.Tuple, ast.List)) and all(isinstance(e, ast.Name) for e in t.elts):
+                        # A, B = <expression>: each name is the element of the value at its position
+                        for i_, e in enumerate(t.elts):
+                            sub = ast.Subscript(value=node.value, slice=ast.Constant(value=i_), ctx=ast.Load())
+                            ast.copy_location(sub, node.value)
+                            ast.fix_missing_locations(sub)
+                            m.bindings[e.id] = sub
+                            m.history.setdefault(e.id, []).append(sub)
             elif isinstance(node, ast.AnnAssign) and isinstance(node.target, ast.Name) and node.value:
                 m.bindings[node.target.id] = node.value
                 m.history.setdefault(node.target.id, []).append(node.value)
